@@ -422,6 +422,7 @@ class Collector:
         self.obs: List[Ob] = []
         self.counters: Dict[str, int] = {}
         self.info: Dict[str, object] = {}
+        self.errors: List[str] = []
 
     def add(self, rule, construct, ok, where, text, facts="", note=False) -> Ob:
         ob = Ob(rule, construct, bool(ok), where, text, facts, note)
@@ -436,6 +437,22 @@ class Collector:
 
     def count(self, name, n=1):
         self.counters[name] = self.counters.get(name, 0) + n
+
+    def rule(self):
+        """context for one rule of a property: a rule that cannot decide (AnalysisError) does not keep the other rules from
+        being evaluated -- their violations are reported; the run is *cannot decide* only if nothing was violated"""
+        col = self
+
+        class _R:
+            def __enter__(self_):
+                return col
+
+            def __exit__(self_, et, ev, tb):
+                if et is not None and issubclass(et, AnalysisError):
+                    col.errors.append(str(ev))
+                    return True
+                return False
+        return _R()
 
     def rule_counts(self) -> Dict[str, int]:
         out: Dict[str, int] = {}
@@ -469,6 +486,106 @@ def load_known(path: Path = VERIF / "KNOWN_FINDINGS.txt"):
 # --------------------------------------------------------------------------- runner
 
 
+def _fn_at(mod: "Module", line: int):
+    best = None
+    for n in ast.walk(mod.tree):
+        if isinstance(n, (ast.FunctionDef, ast.AsyncFunctionDef)) and n.lineno <= line <= (n.end_lineno or n.lineno):
+            if best is None or n.lineno >= best.lineno:
+                best = n
+    return best
+
+
+def _table_dispatch_in(fn: ast.AST, private: bool) -> Optional[str]:
+    """A call through a local name whose value the program text determines (a row of a table, `.get` on one, `getattr(self, <computed>)`,
+    a partial application, a lambda, the result of a private helper, a parameter of a private helper) but which the normal form does not
+    resolve: what such a function does is then not visible to a rule that looks for the statements themselves."""
+    defs: Dict[str, List[ast.AST]] = {}
+    for n in ast.walk(fn):
+        if isinstance(n, ast.Assign):
+            for t in n.targets:
+                if isinstance(t, ast.Name):
+                    defs.setdefault(t.id, []).append(n.value)
+        elif isinstance(n, (ast.For, ast.comprehension)):
+            for t in ast.walk(n.target):
+                if isinstance(t, ast.Name) and not isinstance(n.iter, ast.Call):
+                    defs.setdefault(t.id, []).append(ast.Subscript(value=n.iter, slice=ast.Constant(value=0), ctx=ast.Load()))
+    params = {a.arg for a in fn.args.args + fn.args.kwonlyargs + fn.args.posonlyargs} - {"self", "cls"}
+
+    def table_like(v, seen=()) -> bool:
+        if isinstance(v, ast.IfExp):
+            return table_like(v.body, seen) or table_like(v.orelse, seen)
+        if isinstance(v, ast.Name) and v.id not in seen:
+            return any(table_like(w, seen + (v.id,)) for w in defs.get(v.id, []))
+        if isinstance(v, (ast.Subscript, ast.Lambda)):
+            return True
+        if isinstance(v, ast.Call):
+            d = v.func
+            if isinstance(d, ast.Attribute) and d.attr == "get":
+                return True
+            if isinstance(d, ast.Attribute) and d.attr == "partial" or isinstance(d, ast.Name) and d.id == "partial":
+                return True
+            if isinstance(d, ast.Name) and d.id == "getattr" and len(v.args) >= 2 and isinstance(v.args[0], ast.Name) and v.args[0].id == "self" \
+                    and not isinstance(v.args[1], ast.Constant):
+                return True
+            if isinstance(d, ast.Attribute) and isinstance(d.value, ast.Name) and d.value.id == "self" and _is_private(d.attr):
+                return True
+            if isinstance(d, ast.Name) and _is_private(d.id):
+                return True
+        return False
+    for n in ast.walk(fn):
+        if isinstance(n, ast.Call) and isinstance(n.func, ast.Name):
+            nm = n.func.id
+            if any(table_like(v) for v in defs.get(nm, [])) or (private and nm in params and nm not in defs):
+                return f"{fn.name}: `{ast.unparse(n)[:60]}` (line {n.lineno}) calls through `{nm}`, which is chosen from a table, a partial application or a helper"
+    return None
+
+
+def unresolved_dispatch(repo: "Repo", where: str, depth: int = 3) -> Optional[str]:
+    """The function a violation is located in, or a private helper it calls (these are inlined into it), dispatches through a table."""
+    try:
+        rel, line = where.rsplit(":", 1)
+        line = int(line)
+    except ValueError:
+        return None
+    mod = next((m for m in repo.modules.values() if m.rel == rel), None)
+    if mod is None:
+        return None
+    fn = _fn_at(mod, line)
+    if fn is None:
+        return None
+    fns_by_name: Dict[str, List[ast.AST]] = {}
+    for n in ast.walk(mod.tree):
+        if isinstance(n, (ast.FunctionDef, ast.AsyncFunctionDef)):
+            fns_by_name.setdefault(n.name, []).append(n)
+    seen, todo = set(), [(fn, 0)]
+    while todo:
+        f, d = todo.pop()
+        if id(f) in seen:
+            continue
+        seen.add(id(f))
+        r = _table_dispatch_in(f, _is_private(f.name) and not (f.name.startswith("__") and f.name.endswith("__")))
+        if r:
+            # the normal form may have resolved it (a helper inlined with the callable substituted): judge the normalised function
+            try:
+                from .rules.common import sctx
+                owner = next((c.name for c in ast.walk(mod.tree) if isinstance(c, ast.ClassDef) and fn in c.body), None)
+                sx = sctx(repo, owner, fn.name, None if owner else mod.name)
+                r2 = _table_dispatch_in(sx.fn, _is_private(fn.name) and not (fn.name.startswith("__") and fn.name.endswith("__")))
+            except Exception:
+                return r
+            return r2
+        if d >= depth:
+            continue
+        for n in ast.walk(f):
+            if isinstance(n, ast.Call):
+                nm = n.func.attr if isinstance(n.func, ast.Attribute) and isinstance(n.func.value, ast.Name) and n.func.value.id in ("self", "cls") \
+                    else n.func.id if isinstance(n.func, ast.Name) else None
+                if nm and _is_private(nm) and not (nm.startswith("__") and nm.endswith("__")):
+                    for g in fns_by_name.get(nm, []):
+                        todo.append((g, d + 1))
+    return None
+
+
 def run_property(prop: str, tier: str, check: Callable, floors: Dict[str, int], meta: dict,
                  repo_root: Path = DEFAULT_REPO, write_evidence: bool = True, quiet: bool = False) -> int:
     """Run one property's rules; print verdict lines; write evidence; return exit code."""
@@ -483,7 +600,17 @@ def run_property(prop: str, tier: str, check: Callable, floors: Dict[str, int], 
         counts = col.rule_counts()
         # a failed obligation is positive evidence whatever the instance count; the floor guards vacuous *passes* only
         known_keys = load_known()[0].get(prop, {})
+        # a violation located in a function that dispatches through a table the normal form does not resolve is not decided:
+        # the statements the rule looks for may sit behind the table
+        for o in list(col.obs):
+            if not o.ok and not o.note and o.key not in known_keys:
+                why = unresolved_dispatch(repo, o.where)
+                if why:
+                    col.errors.append(f"{o.rule} @ {o.construct}: not decided -- {why}")
+                    col.obs.remove(o)
         has_violation = any(not o.ok and not o.note and o.key not in known_keys for o in col.obs)
+        if col.errors and not has_violation:
+            raise AnalysisError("; ".join(dict.fromkeys(col.errors)))
         for rule, floor in floors.items():
             if counts.get(rule, 0) < floor and not has_violation:
                 raise AnalysisError(
